@@ -1,10 +1,13 @@
 (* CorrC20.v — correspondence and property evaluation for C20 (run on harness output). *)
-From Ucfg Require Export Base ParseInt Consts Field.
+From Ucfg Require Export Base ParseInt Consts Field Tree PathOps.
 
 Inductive case :=
 | CParseInt (s : string) (signed unsigned : option Z)
 | CPath (input sep : string) (maxIdx : Z) (numKeys escape : bool) (observed : list field)
-| CPathIdx (name : string) (idx : Z) (sep : string) (maxIdx : Z) (numKeys : bool) (observed : list field).
+| CPathIdx (name : string) (idx : Z) (sep : string) (maxIdx : Z) (numKeys : bool) (observed : list field)
+| CTag (tag : string) (maxIdx : Z) (numKeys : bool) (cfg : value) (observed : option string).
+    (* Unpack of cfg into struct{F string `config:"<tag>"`} under MaxIdx / EnableNumKeys: what F
+       holds afterwards (None = Unpack failed).  The tag is read under the options of THIS call *)
 
 (* The property as a boolean on what the implementation returned (single segment):
    an index exactly when numeric keys are off and the segment is an integer literal
@@ -34,6 +37,25 @@ Definition prop_holds (c : case) : bool :=
     else let elems := split input sep in
          segs_ok elems maxIdx (match elems with _ :: _ :: _ => false | _ => numKeys end) obs
   | CPathIdx name idx sep maxIdx numKeys obs => true
+  | CTag tag maxIdx numKeys cfg obs =>
+    (* a numeric tag names the list entry exactly when numeric keys are off and it lies in
+       [0, maxIdx]; otherwise it names the setting of that name *)
+    let want :=
+        match parse_int0 tag with
+        | Some i =>
+          if negb numKeys && (0 <=? i) && (i <=? maxIdx)
+          then match cfg with
+               | VSub _ a => match nth_opt (arr_of a) (Z.to_nat i) with Some (_, VStr s) => Some s | Some _ => None | None => Some "" end
+               | _ => None end
+          else match cfg with
+               | VSub d _ => match dict_get tag d with Some (_, VStr s) => Some s | Some _ => None | None => Some "" end
+               | _ => None end
+        | None =>
+          match cfg with
+          | VSub d _ => match dict_get tag d with Some (_, VStr s) => Some s | Some _ => None | None => Some "" end
+          | _ => None end
+        end in
+    match want with Some s => opt_eqb String.eqb obs (Some s) | None => true end
   end.
 
 Definition model_agrees (c : case) : bool :=
@@ -44,6 +66,12 @@ Definition model_agrees (c : case) : bool :=
     list_eqb field_eqb (parse_path input sep maxIdx numKeys escape) obs
   | CPathIdx name idx sep maxIdx numKeys obs =>
     list_eqb field_eqb (parse_path_idx name idx sep maxIdx numKeys false) obs
+  | CTag tag maxIdx numKeys cfg obs =>
+    match get_path "" (parse_path tag "" maxIdx numKeys false) cfg with
+    | Ok (Some (_, VStr s)) => opt_eqb String.eqb obs (Some s)
+    | Ok (Some (_, VNil)) | Ok None | Err EMissing _ => opt_eqb String.eqb obs (Some "")
+    | _ => true
+    end
   end.
 
 (* known-finding signatures (0 = none) *)
